@@ -299,6 +299,7 @@ func evalContractOnFacts(fn *ssa.Function, inputs map[string]*Term, outs []strin
 	sp := rctx.sp
 	ct := sp.Contracts[key]
 	vc := newVC(key + "/replay")
+	vc.sp = sp
 	rep := &FuncReport{}
 	x := &Exec{ld: rctx.ld, sp: sp, vc: vc, usedFns: map[string]bool{}, tids: map[string]int{}, contract: ct, callOrd: map[string]int{}, report: rep, closures: map[string]*closureInfo{}, globals: map[*ssa.Global]*Term{}}
 	x.hp = &Heaper{vc: vc, sp: sp}
@@ -360,8 +361,7 @@ func evalContractOnFacts(fn *ssa.Function, inputs map[string]*Term, outs []strin
 	}
 	var b strings.Builder
 	b.WriteString("(set-logic ALL)\n")
-	b.WriteString(text)
-	b.WriteString(vc.strDecls())
+	b.WriteString(strings.Replace(text, ";;STRDECLS;;\n", vc.strDecls(), 1))
 	for _, g := range vc.globals {
 		b.WriteString(g + "\n")
 	}
